@@ -46,6 +46,41 @@ def cases(pid, seed, tier, n, offset=7_000_000):
                 out.append(c)
     return out
 
+def memcheck_cases(pid, seed, n, offset=8_000_000):
+    """Thorough-tier overlay: the same LD_PRELOAD scenarios under valgrind memcheck (the hook cdylib cannot be rebuilt under ASan from
+    here). A memcheck error ends the process with exit code 9 and is a violation of its own kind; timing verdicts produced under
+    valgrind (10-30x slower) are not believed."""
+    import shutil, re
+    if not shutil.which("valgrind"):
+        c = vlib.Case(offset); c.engine = "valgrind memcheck + LD_PRELOAD"; c.verdict = "inconclusive"; c.sig = "harness/valgrind-not-installed"; return [c]
+    so, binp = build()
+    sc = SCENARIO[pid]
+    def pol(case, rc, timed_out, tail):
+        if rc == 9 or re.search(r"^==\d+== (Invalid|Conditional jump|Use of uninitialised|Mismatched|Source and destination overlap|Jump to the invalid)", tail, re.M):
+            m = re.search(r"^==\d+== (Invalid read|Invalid write|Invalid free|Conditional jump|Use of uninitialised|Mismatched free|Source and destination overlap|Jump to the invalid address)", tail, re.M)
+            kind = (m.group(1) if m else "error").lower().replace(" ", "-")
+            return ("violated", f"{pid}/memcheck/{kind}", tail[-1500:])
+        return vlib.default_crash_policy(case, rc, timed_out, tail)
+    argv = ["valgrind", "-q", "--error-exitcode=9", "--trace-children=yes", "--leak-check=no", "env", f"LD_PRELOAD={so}", binp, "--seed", str(seed + 3)]
+    out = []
+    from concurrent.futures import ThreadPoolExecutor
+    def one(i):
+        return vlib.run_range(argv, i, i + 1, engine="valgrind memcheck + LD_PRELOAD", case_timeout=300, crash_policy=pol)
+    with ThreadPoolExecutor(max_workers=4) as ex:
+        for cs in ex.map(one, [5 * k + sc for k in range(n)]):
+            for c in cs:
+                if c.verdict == "violated" and "/memcheck/" not in (c.sig or ""):
+                    if not c.sig.startswith(pid + "/") or vlib.TIMING_SIG.search(c.sig or ""):
+                        c.detail = f"{c.sig}: {c.detail}"
+                        c.verdict, c.sig, c.nontrivial = "inconclusive", "verdict-under-valgrind-not-believed", False
+                c.idx += offset
+                c.fp = (c.fp or "") + "#memcheck"
+                out.append(c)
+    return out
+
 def replay_cmd(c, seed, offset=7_000_000):
+    if c.idx >= 8_000_000:
+        i = c.idx - 8_000_000
+        return {"cmd": f"valgrind -q --error-exitcode=9 --trace-children=yes --leak-check=no env LD_PRELOAD=/verif/wl-hook/target-dylib/release/libopen_coroutine_hook.so /verif/wl-hook/target/release/hooked --seed {seed + 3} --from {i} --to {i+1} --out /dev/stdout"}
     i = c.idx - offset
     return {"cmd": f"LD_PRELOAD=/verif/wl-hook/target-dylib/release/libopen_coroutine_hook.so /verif/wl-hook/target/release/hooked --seed {seed} --from {i} --to {i+1} --out /dev/stdout 2>/dev/null | grep '@@'"}
